@@ -695,8 +695,8 @@ bit_array_impl!(
     U8_3,
     20,
     bitarr!(const u8, Lsb0; 1, 0, 0, 0, 0, 0, 0, 0, 0, 0, 0, 0, 0, 0, 0, 0, 0, 0, 0, 0),
-    // x^20 + x^7 + x^3 + x^2 + 1
-    0b1_0000_0000_0000_1000_1101_u128,
+    // x^20 + x^3 + 1
+    0b1_0000_0000_0000_0000_1001_u128,
     fallible,
 );
 
